@@ -38,6 +38,8 @@ def lean(run, pid, tier, lock, collect):
         missing = [t for t in names if t not in tset]
         ok_map = bool(names) and not missing or ('congruence' in doc and not names)
         mapped += 1
+        if not ok_map:
+            run.error('lemma builtin %s names no existing Lean theorem (%s)' % (fn[4:], missing or 'none named'))
         run.add_obligations([Obligation('lemma-map/%s' % fn[4:], 'engine/pyvc/core.py', 'discharged' if ok_map else 'open', 'syntactic', 0.0,
                                         '' if ok_map else 'docstring names no existing Lean theorem: %s' % (missing or 'none named'), 'lemma')])
     run.extra['lean'] = {'file': 'engine/lean/VerifLemmas.lean', 'theorems': len(thms), 'seconds': round(secs, 2), 'banned': banned, 'lemma_builtins_mapped': mapped}
